@@ -49,7 +49,7 @@ func main() {
 		"distinct = hash(phase, document shape, operation/address-form/credential-class sequence [, system-call sequence | observed interleaving]); " +
 		"non-trivial = seq: pre-existing document with ≥1 unknown top-level key and ≥2 auths entries and ≥1 effective Put and Delete; crash: ≥3 crash points, all enumerated; conc: ≥2 operations on one address overlapped in time, one of them a Put/Delete")
 	r.Assume("credentials and document strings are valid UTF-8 (JSON cannot carry other bytes)")
-	r.Assume("pre-existing documents are well-formed docker configs: auths is an object (or null/absent), credsStore a string, credHelpers an object of strings")
+	r.Assume("pre-existing documents are well-formed docker configs: auths is an object (or null/absent), credsStore a string or null, credHelpers an object of strings")
 	r.Assume("crash points are entries of file-system-mutating system calls as recognised by tools/crashat.c; a kill inside one write(2) is not explored (the data goes to a temporary file)")
 	r.Assume("Get of an address whose only matching entries are malformed (undecodable auth) is not judged")
 
@@ -69,17 +69,17 @@ func main() {
 	if os.Getenv("VERIF_CRASHAT") == "" {
 		r.Violation("harness:no-crashat", "VERIF_CRASHAT is not set", nil)
 	} else {
-		worker.Run(r, worker.Opts{Phase: "crash", Total: r.N(110, 2200), Batch: 5, OnResult: byKey})
+		worker.Run(r, worker.Opts{Phase: "crash", Total: r.N(110, 3300), Batch: 5, OnResult: byKey})
 		r.Set("crash_points_exhaustive_per_case", r.Counter("crash_cases_fully_enumerated") == r.Counter("crash_cases_with_points"))
 	}
 	lap("crash")
 
-	worker.Run(r, worker.Opts{Phase: "conc", Total: r.N(240, 8000), Batch: 15, OnResult: byKey})
+	worker.Run(r, worker.Opts{Phase: "conc", Total: r.N(240, 10000), Batch: 15, OnResult: byKey})
 	lap("conc")
 	if bin := os.Getenv("VERIF_RACE_BIN"); bin != "" {
 		raceDir, _ := os.MkdirTemp("", "verif-c18-race-")
 		defer os.RemoveAll(raceDir)
-		worker.Run(r, worker.Opts{Phase: "race", Total: r.N(60, 2000), Batch: 5, Bin: bin, OnResult: byKey,
+		worker.Run(r, worker.Opts{Phase: "race", Total: r.N(60, 2500), Batch: 5, Bin: bin, OnResult: byKey,
 			Env: []string{"GORACE=halt_on_error=0 log_path=" + filepath.Join(raceDir, "race")}})
 		n := countRaceReports(raceDir, r)
 		r.Set("race_reports_in_library", n)
@@ -88,7 +88,7 @@ func main() {
 	} else {
 		r.Set("race_phase", "skipped: VERIF_RACE_BIN not set")
 	}
-	if r.Counter("crash_points_enumerated") < int64(r.N(200, 4000)) {
+	if r.Counter("crash_points_enumerated") < int64(r.N(200, 6000)) {
 		r.Violation("harness:too-few-crash-points", fmt.Sprintf("only %d crash points enumerated", r.Counter("crash_points_enumerated")), nil)
 	}
 	r.Finish(r.N(250, 5000))
